@@ -42,6 +42,7 @@ pub enum ParseUnicodeError {
     },
 }
 
+#[allow(dead_code)]
 pub fn parse_bytes(s: &str) -> Result<Vec<u8>, ParseSequenceError> {
     let mut chars = s.chars().enumerate();
     let mut res: Vec<u8> = Vec::with_capacity(s.len());
@@ -174,6 +175,7 @@ pub fn parse_bytes(s: &str) -> Result<Vec<u8>, ParseSequenceError> {
 ///
 /// The returned result can display a human readable error if the string cannot be parsed as a
 /// valid quoted string.
+#[allow(dead_code)]
 pub fn parse_string(s: &str) -> Result<String, ParseSequenceError> {
     let mut chars = s.chars().enumerate();
     let res = String::with_capacity(s.len());
@@ -358,6 +360,135 @@ fn parse_quoted_string(
         return Err(ParseSequenceError::MissingClosingQuote);
     }
 
+    Ok(res)
+}
+
+/// Splits the text of a `STRING` token (optionally preceded by `r`/`R`) into its raw flag and
+/// the characters between the delimiters. The delimiters are recognised by their length - one
+/// quote character, or three for the triple-quoted forms - exactly as the lexer matched them,
+/// so quote characters inside the literal are ordinary content.
+fn literal_body(s: &str) -> Result<(bool, &str), ParseSequenceError> {
+    let (raw, s) = match s.strip_prefix(['r', 'R']) {
+        Some(rest) => (true, rest),
+        None => (false, s),
+    };
+    let quote = match s.chars().next() {
+        Some(c) if c == '"' || c == '\'' => c,
+        _ => return Err(ParseSequenceError::MissingOpeningQuote),
+    };
+    let triple: String = std::iter::repeat(quote).take(3).collect();
+    let width = if s.len() >= 6 && s.starts_with(&triple) && s.ends_with(&triple) {
+        3
+    } else {
+        1
+    };
+    if s.len() < 2 * width || !s.ends_with(quote) {
+        return Err(ParseSequenceError::MissingClosingQuote);
+    }
+    Ok((raw, &s[width..s.len() - width]))
+}
+
+/// One decoded element of a literal: a character written verbatim or denoted by a `\u` / `\U`
+/// escape, or a value below 256 denoted by a `\x`, `\X` or octal escape (a code point in a
+/// string literal, a single byte in a bytes literal).
+enum Unit {
+    Char(char),
+    Small(u8),
+}
+
+fn unescape(body: &str, raw: bool, whole: &str) -> Result<Vec<Unit>, ParseSequenceError> {
+    let mut units = Vec::with_capacity(body.len());
+    let mut chars = body.chars().enumerate();
+    while let Some((idx, c)) = chars.next() {
+        if raw || c != '\\' {
+            units.push(Unit::Char(c));
+            continue;
+        }
+        let invalid = |escape: String| ParseSequenceError::InvalidEscape {
+            escape,
+            index: idx,
+            string: String::from(whole),
+        };
+        let (_, c2) = chars.next().ok_or_else(|| invalid(String::from(c)))?;
+        let unit = match c2 {
+            'a' => Unit::Char('\u{07}'),
+            'b' => Unit::Char('\u{08}'),
+            'f' => Unit::Char('\u{0C}'),
+            'n' => Unit::Char('\n'),
+            'r' => Unit::Char('\r'),
+            't' => Unit::Char('\t'),
+            'v' => Unit::Char('\u{0B}'),
+            '\\' | '?' | '"' | '\'' | '`' => Unit::Char(c2),
+            'x' | 'X' | 'u' | 'U' => {
+                let length = match c2 {
+                    'u' => 4,
+                    'U' => 8,
+                    _ => 2,
+                };
+                let digits: String = chars.by_ref().take(length).map(|(_, c)| c).collect();
+                if digits.len() != length || !digits.chars().all(|c| c.is_ascii_hexdigit()) {
+                    return Err(invalid(format!("\\{c2}{digits}")));
+                }
+                let value = u32::from_str_radix(&digits, 16)
+                    .map_err(|_| invalid(format!("\\{c2}{digits}")))?;
+                if length == 2 {
+                    Unit::Small(value as u8)
+                } else {
+                    Unit::Char(char::from_u32(value).ok_or(
+                        ParseSequenceError::InvalidUnicode {
+                            source: ParseUnicodeError::Unicode { value },
+                            index: idx,
+                            string: String::from(whole),
+                        },
+                    )?)
+                }
+            }
+            '0'..='3' => {
+                let digits: String = std::iter::once(c2)
+                    .chain(chars.by_ref().take(2).map(|(_, c)| c))
+                    .collect();
+                if digits.len() != 3 || !digits.chars().all(|c| ('0'..='7').contains(&c)) {
+                    return Err(invalid(format!("\\{digits}")));
+                }
+                let value =
+                    u32::from_str_radix(&digits, 8).map_err(|_| invalid(format!("\\{digits}")))?;
+                Unit::Small(value as u8)
+            }
+            _ => return Err(invalid(format!("{c}{c2}"))),
+        };
+        units.push(unit);
+    }
+    Ok(units)
+}
+
+/// Decodes the text of a `STRING` token: the delimiters are stripped by length, raw literals
+/// are taken verbatim, and every escape denotes the code point CEL assigns to it.
+pub fn unquote_string(token: &str) -> Result<String, ParseSequenceError> {
+    let (raw, body) = literal_body(token)?;
+    Ok(unescape(body, raw, token)?
+        .into_iter()
+        .map(|u| match u {
+            Unit::Char(c) => c,
+            Unit::Small(b) => b as char,
+        })
+        .collect())
+}
+
+/// Decodes the text of a `BYTES` token (`b`/`B` followed by any string form): like
+/// [`unquote_string`], except that `\x`, `\X` and octal escapes denote single bytes and every
+/// other character contributes its UTF-8 encoding.
+pub fn unquote_bytes(token: &str) -> Result<Vec<u8>, ParseSequenceError> {
+    let rest = token
+        .strip_prefix(['b', 'B'])
+        .ok_or(ParseSequenceError::MissingOpeningQuote)?;
+    let (raw, body) = literal_body(rest)?;
+    let mut res = Vec::with_capacity(body.len());
+    for u in unescape(body, raw, token)? {
+        match u {
+            Unit::Char(c) => res.extend_from_slice(c.encode_utf8(&mut [0; 4]).as_bytes()),
+            Unit::Small(b) => res.push(b),
+        }
+    }
     Ok(res)
 }
 
